@@ -36,6 +36,9 @@ type MessageBigD struct {
 	A uint16
 	B int8
 	C string
+	D [1]uint8 // a real one-element array: its length byte is part of CRC_EXTRA
+	E string   `mavlen:"1"` // char[1], not a scalar char
+	F [1]uint32
 }
 
 func (*MessageBigD) GetID() uint32 { return 0x010000 + 77 }
